@@ -422,9 +422,7 @@ Definition exec (w : world) (c : cmd) : world * outcome :=
                              | Raise e => (set_heap w2 hp, n, Raise e)
                              end
                          end) (f_indices ff) (w, 0, Ok tt) in
-          (* the iterator sets the index for each snapshot and sets it back: an index that was
-             missing from the book-keeping (emptied by deletion) is re-created by that *)
-          (set_var w' f (OFilt (f_setIndex (fold_left f_setIndex (f_indices ff) ff) (f_index ff))), unit_out res)
+          (w', unit_out res)
       | _ => (w, Err TypeError)
       end
   | CVR x v close =>
